@@ -242,27 +242,39 @@ type hrun struct {
 // layering of an ID after a history over base
 func historyLayer(base wk.Spec, hist []op) func(b6.FeatureID) string {
 	return func(id b6.FeatureID) string {
-		var parts []string
-		if base.Find(id) != nil {
-			parts = append(parts, "in-base")
-		}
+		// what the history did to the ID, as a set (the order is in the counterexample)
+		did := map[string]bool{}
 		cur := base
 		for _, o := range hist {
-			if o.id == id {
-				parts = append(parts, o.class(cur))
-			} else if o.kind == opAddFeature {
+			switch {
+			case o.id == id && o.kind == opAddFeature:
+				did["given-to-AddFeature"] = true
+			case o.id == id && searchable(o.key):
+				did["searchable-tag-edit"] = true
+			case o.id == id:
+				did["plain-tag-edit"] = true
+			case o.kind == opAddFeature:
 				for _, x := range wk.NewRef(cur).Referrers(o.id) {
 					if x == id {
-						parts = append(parts, "dependant-of-"+o.class(cur))
+						did["references-ID-given-to-AddFeature"] = true
 					}
 				}
 			}
 			cur = apply(cur, o)
 		}
+		var parts []string
+		if base.Find(id) != nil {
+			parts = append(parts, "in-base")
+		}
+		for _, k := range []string{"plain-tag-edit", "searchable-tag-edit", "given-to-AddFeature", "references-ID-given-to-AddFeature"} {
+			if did[k] {
+				parts = append(parts, k)
+			}
+		}
 		if len(parts) == 0 {
 			return "absent"
 		}
-		return strings.Join(parts, ">")
+		return strings.Join(parts, "+")
 	}
 }
 
@@ -294,7 +306,7 @@ func (h *hrun) judge(hist []op, classes []string, cur wk.Spec) {
 	})
 	r.Evals++
 	if cls != "" {
-		r.Violate("H["+shape+"]:"+cls, "%s\n%s", describe(), msg)
+		r.Violate("H:"+cls+":after["+shape+"]", "%s\n%s", describe(), msg)
 		r.AddOutcome("H:" + shape + ":panic")
 		return
 	}
@@ -306,7 +318,7 @@ func (h *hrun) judge(hist []op, classes []string, cur wk.Spec) {
 	}
 	want := expectHistory(cur, explicit, h.ids, h.qs)
 	got := observe(m, h.ids, h.qs, h.b6qs, want)
-	good := compare(r, "H["+shape+"]", got, want, historyLayer(h.base, hist), describe)
+	good := compare(r, "H", got, want, historyLayer(h.base, hist), describe)
 	if cur.String() != h.base.String() {
 		r.Distinct++ // non-trivial: the history changed the reference world
 	}
